@@ -14,6 +14,10 @@ pub fn run(id: &str, tier: &str) -> i32 {
         "C07" => framing::check_c07(tier),
         "C08" => server_family::check_c08(tier),
         "C10" => client_sm::check_c10(tier),
+        "C11" => client_sm::check_c11(tier),
+        "C12" => client_sm::check_c12(tier),
+        "C13" => client_sm::check_c13(tier),
+        "C14" => client_sm::check_c14(tier),
         "C17" => server_family::check_c17(tier),
         _ => {
             eprintln!("unknown or unimplemented property {id}");
@@ -51,6 +55,8 @@ pub fn replay(path: &str) -> i32 {
         Some("c04") => client_codec::replay_c04(scn),
         Some("server-stream") => framing::replay_server_stream(scn),
         Some("c07-server") | Some("c07-client") => framing::replay_c07(scn),
+        Some("client-sm-wrap") => client_sm::replay_wrap(),
+        Some("c14-pure") => client_sm::replay_c14_pure(scn),
         Some("client-sm") => client_sm::replay(scn),
         Some("client-stream") => framing::replay_client_stream(scn),
         k => {
